@@ -7,7 +7,8 @@
    Naive kernels' index programs, incl. the ...Scalar operators) at the ring R, plus the
    non-polynomial differentiable operators Abs Sqrt Exp Log Tanh Sigmoid Softplus Sin Cos Tan,
    DivideConstR/L PowConstR/L PReLU ELU ReLU LReLU, PowN, Divide, Pow, whose element formulas are
-   the GENERATED fw_<op> / bw_<op> of Gen/ScalarGen.v (regenerated from the C++ on every run).
+   the GENERATED fw_<op> / bw_<op> of Gen/ScalarGen.v (regenerated from the C++ on every run),
+   and Max / Min along an axis (first extremal index, as max_bw's `break`).
 
    Three layers, kept separate:
    (1) adjointness (algebra, unconditional): C01_real_local_adjoint, C01_real_backward_is_adjoint.
@@ -16,16 +17,17 @@
    (2) the jvp IS the derivative (analysis): C01_real_jvp_is_derivative, for every operator of
        real_family except stop_gradient, on the operator's smooth domain real_dom (x > 0 for
        log / sqrt / pow base, cos x <> 0 for tan, x <> 0 for abs / prelu / elu / relu / k/x /
-       pown, divisor <> 0), along ANY differentiable curve of operand values; citing d_<op> of
-       Scalar/Deriv.v and d_pown of Scalar/Pown.v.
+       pown, divisor <> 0, every maximum / minimum attained exactly once), along ANY
+       differentiable curve of operand values; citing d_<op> of Scalar/Deriv.v, d_pown of
+       Scalar/Pown.v.
    (3) the two together, by induction over the tape with the chain rule:
        C01_real_tangent_is_derivative and C01_real_backward_computes_derivative:
          sum_p <grad_after p - grad_before p, dp p>
            = sum over the elements i of y of  d/dt y_i(p + t dp) at t = 0
        for every tape without stop_gradient whose operands lie in the smooth domains
        (real_smooth), y(p) being the pure forward evaluation of the tape at parameters p.
-   Not covered: Max / Min / MaxPooling2D (first-maximum selection), LogSumExp, the two
-   SoftmaxCrossEntropy operators, and the Divide / Pow ...Scalar variants. *)
+   Not covered: MaxPooling2D, LogSumExp, the two SoftmaxCrossEntropy operators, and the
+   Divide / Pow ...Scalar variants. *)
 From Coq Require Import List NArith ZArith Bool Arith Reals.
 From Coquelicot Require Import Coquelicot.
 From PV Require Import Graph.OpFamily Graph.Tape Graph.Lazy Graph.Backward Graph.TapeLemmas Graph.LazyProofs
